@@ -1,6 +1,7 @@
 CONSTANTS
   Level = 2
   MaxSteps = 3
+  Focus = 0
   Tokens <- TokensDef
   Risk <- RiskDef
   Rows <- RowsDef
